@@ -84,7 +84,26 @@ pub fn draw(r: &mut Rng, profile: Profile, enabled: &[String]) -> (E1Config, Kno
     let mut cluster_of = vec![0usize; n];
     let mut cluster_ids = vec![r.pick(&["c", "", "default-cluster", "Cluster"]).to_string()];
     if profile == Profile::TwoClusters {
-        let pairs: &[(&str, &str)] = &[("a", "A"), ("", "a"), ("ab", "a"), ("a", "ab"), ("x", "y"), ("cluster", "cluster2"), ("é", "e")];
+        // ids that a sloppy comparison would take for equal: case, prefix, surrounding whitespace,
+        // trailing NUL, composed and decomposed accents, empty and blank
+        let pairs: &[(&str, &str)] = &[
+            ("a", "A"),
+            ("", "a"),
+            ("ab", "a"),
+            ("a", "ab"),
+            ("x", "y"),
+            ("cluster", "cluster2"),
+            ("é", "e"),
+            ("blue", "blue\n"),
+            (" a", "a"),
+            ("a ", "a"),
+            ("", " "),
+            ("a\t", "a"),
+            ("a\0", "a"),
+            ("\u{e9}", "e\u{301}"),
+            ("a\r\n", "a"),
+            ("straße", "strasse"),
+        ];
         let (c0, c1) = *r.pick(pairs);
         cluster_ids = vec![c0.to_string(), c1.to_string()];
         n = n.max(2);
